@@ -131,6 +131,11 @@ def wave_case(mt):
     extra = mt['extra']
     wide = [row + [row[p % lanes] for p in range(extra)] for row in inw]
     add('allocated %d more lanes' % extra, lambda: run(mt['cls2'], d0, lanes + extra, wide), ident + [(p % lanes) + 1 for p in range(extra)])
+    # scale: batches beyond one / two / three thread blocks of the (mock) GPU launcher, always on the GPU-kernel path
+    big = mt.get('big', 0)
+    if big:
+        wide2 = [row + [row[p % lanes] for p in range(big)] for row in inw]
+        add('WaveSimCuda with %d lanes' % (lanes + big), lambda: run(WaveSimCuda, d0, lanes + big, wide2), ident + [(p % lanes) + 1 for p in range(big)])
     perm = mt['perm']
     pin = [[row[perm[p]] for p in range(lanes)] for row in inw]
     add('lanes permuted %s' % perm, lambda: run(mt['cls2'], d0, lanes, pin), [perm[p] + 1 for p in range(lanes)])
@@ -216,7 +221,7 @@ def make(ck, rnd, n):
         rnd.shuffle(perm)
         inw = [[wrec.stim_image(rnd.randint(0, 1), rnd.randint(0, 40 if parity else 12), rnd.randint(0, 1)) for _ in range(lanes)] for _ in c.s_nodes]
         mt = dict(kind='wave', circuit=gen.circuit_state(c), lanes=lanes, delays=d.tolist(), ds=ds, caps=4 if parity else rnd.choice([4, 8, 16]), inw=inw,
-                  T=rnd.choice([None, rnd.randint(0, 20), rnd.randint(0, 20)]), extra=rnd.choice([1, 3, 30]), perm=perm, k=rnd.randint(1, lanes - 1),
+                  T=rnd.choice([None, rnd.randint(0, 20), rnd.randint(0, 20)]), extra=rnd.choice([1, 3, 30]), big=rnd.choice([0, 0, 20, 45, 60, 97]), perm=perm, k=rnd.randint(1, lanes - 1),
                   cls2=rnd.choice(['WaveSim', 'WaveSimCuda']))
         recs.append(build(mt))
         metas.append(mt)
